@@ -6,7 +6,7 @@ use weechess_core::{Color, Move, MoveResult, State};
 
 // 32-byte statics only (an 8-byte `static mut u64` trips a Kani 0.68 deallocation artefact, see c05.rs)
 static mut FLAGS: [bool; 8] = [false; 8]; // 0 lookup called, 1 table read, 2 table written, 3 generator called, 4 lookup hit
-static mut WORDS: [u64; 4] = [0; 4]; // 0 position hash, 1 hash passed to increment, 2 number of increments
+static mut WORDS: [u64; 4] = [0; 4]; // 0 position hash, 1 hash passed to increment, 2 number of increments, 3 increments of another hash
 
 fn stub_hash(_h: &ZobristHasher, _s: &State) -> Hash {
     unsafe { WORDS[0] }
@@ -27,6 +27,9 @@ fn stub_increment(_h: &mut StateHistory, hash: Hash) {
     unsafe {
         WORDS[1] = hash;
         WORDS[2] += 1;
+        if hash != WORDS[0] {
+            WORDS[3] += 1; // a hash other than the root position's was recorded
+        }
     }
 }
 
@@ -98,6 +101,7 @@ fn reset() {
         FLAGS = [false; 8];
         WORDS = kani::any();
         WORDS[2] = 0;
+        WORDS[3] = 0;
         ENTRY = kani::any();
         kani::assume(weechess_core::verif_c20::valid_raw(ENTRY[1] as u32));
     }
@@ -210,7 +214,7 @@ fn c17_root_is_not_a_repetition() {
 include!("analyze_iterative_head_extracted.rs");
 
 /// With a search memory handed over (the only case in which the history can hold anything): the root position's hash is
-/// computed with the memory's hasher and recorded exactly once before the first iteration; nothing is looked up.
+/// computed with the memory's hasher and recorded (and nothing else is) before the first iteration; nothing is looked up.
 #[kani::proof]
 #[kani::unwind(18)]
 #[kani::stub(weechess_core::ZobristHasher::hash, stub_hash)]
@@ -224,8 +228,9 @@ fn c17_root_hash_is_recorded() {
     let (hasher, tt, history, root_hash) = analyze_iterative_head(state, rng, max_depth, Some(placeholder_artifact()));
     unsafe {
         assert!(root_hash == WORDS[0], "the root hash is the hasher's hash of the root position");
-        assert!(WORDS[2] == 1, "recorded exactly once");
-        assert!(WORDS[1] == WORDS[0], "what is recorded is the root position's hash");
+        // (recording it more than once would not break the property: the history is a multiset and only membership is asked)
+        assert!(WORDS[2] >= 1, "the root position's hash is recorded before the first iteration");
+        assert!(WORDS[3] == 0 && WORDS[1] == WORDS[0], "nothing but the root position's hash is recorded");
         assert!(!FLAGS[0] && !FLAGS[1] && !FLAGS[2]);
     }
     kani::cover!(max_depth.is_none(), "unbounded search reachable");
